@@ -114,6 +114,7 @@ class SnapshotMonitor(Ext):
     def __init__(self, mon):
         Ext.__init__(self, mon)
         self.sha_ok = set()
+        self.pos_of = {}
 
     def on_serialize(self, p, data, id):
         # called right before Serializer.serialize: `data` is what will be written
@@ -177,6 +178,8 @@ class SnapshotMonitor(Ext):
                 raw = fh.read()
             key = h32(raw[:64], len(raw), raw[-64:])
             if key in self.sha_ok:
+                if key in self.pos_of:
+                    self.check_dump_covers_log(p, self.pos_of[key], where)
                 return
             data = _pickle.loads(gzip.decompress(raw))
             state, last = data[0], data[1]
@@ -186,6 +189,20 @@ class SnapshotMonitor(Ext):
         if state is not None:
             self.check_state(p, state, last[1], 'on disk')
         self.sha_ok.add(key)
+        self.pos_of[key] = last[1]
+        self.check_dump_covers_log(p, last[1], where)
+
+    def check_dump_covers_log(self, p, k, where):
+        """The dump file restores the node (and serves followers that are behind the node's log) only together with the log
+        entries after its position: a dump that ends before the log begins leaves the positions in between nowhere."""
+        if p.dead or not where.startswith('after step'):
+            return
+        f = p.journal.first_idx()
+        self.mon.obs['dump_vs_log_checks'] += 1
+        if f is not None and f > k + 1:
+            raise Violation('C09', 'dump_older_than_log', '%r: the dump file holds the state at position %d, the log of the node starts at %d: '
+                            'positions %d..%d are in neither (the node can not be restarted from them, and serves this file to followers)'
+                            % (p, k, f, k + 1, f - 1), gap=f - k - 1)
 
     def after_step(self, p, action):
         if p.conf.fullDumpFile:
